@@ -538,6 +538,8 @@ class Prover:
 
     def rec(self, name, verdict, **kw):
         r = dict(obligation="%s/%s/%s" % (self.prop, self.job, name), verdict=verdict)
+        if verdict != "unsat" and getattr(self, "_cur", None):
+            r["scenario"], r["params"], r["key"] = self._cur[0], self._cur[1], kw.pop("key", None)
         r.update(kw)
         self.records.append(r)
         return r
@@ -549,6 +551,7 @@ class Prover:
         failed obligation ('no exception'); or an exception class the scenario is allowed to end in."""
         params = dict(params or {})
         t0 = time.time()
+        self._cur = ("%s:%s" % (sc.__module__, sc.__name__), jsonable(params))
 
         def go():
             B = SymB(range_mode=range_mode, linalg=linalg)
